@@ -21,8 +21,14 @@ func (h Header) GetHeight() exported.Height {
 }
 
 func (h Header) ValidateBasic() error {
-	if _, err := sdk.AccAddressFromBech32(h.TssAddress); err != nil {
+	addr, err := sdk.AccAddressFromBech32(h.TssAddress)
+	if err != nil {
 		return sdkerrors.Wrapf(sdkerrors.ErrInvalidAddress, "string could not be parsed as address: %v", err)
+	}
+	// the address is compared with a signer's canonical string: another spelling of the same address
+	// (bech32 also accepts all upper case) could never match
+	if addr.String() != h.TssAddress {
+		return sdkerrors.Wrapf(sdkerrors.ErrInvalidAddress, "address %s is not in its canonical form %s", h.TssAddress, addr.String())
 	}
 	return nil
 }
